@@ -53,21 +53,31 @@ static int sched_park(int kind, void* addr, long val) {
 static void* sched_tramp(void* arg) {
   int id = (int) (long) arg;
   sched_self = id;
-  sem_wait(&sched_t[id].sem);           /* wait for the baton before touching anything */
-  sched_t[id].fn(id);
-  sched_t[id].kind = SCHED_K_DONE;
-  sem_post(&sched_ctl);
+  for (;;) {                            /* pthreads are reused from run to run (thread creation is slow under ASan) */
+    sem_wait(&sched_t[id].sem);         /* wait for the baton before touching anything */
+    sched_t[id].fn(id);
+    sched_t[id].kind = SCHED_K_DONE;
+    sem_post(&sched_ctl);
+  }
   return NULL;
 }
 
-/* controller: create thread `id` and let it run up to its first park */
+/* controller: start thread `id` on `fn` and let it run up to its first park */
 static void sched_spawn(int id, void (*fn)(int)) {
   sched_thread* t = &sched_t[id];
   if (id >= SCHED_MAXT) abort();
   if (id >= sched_n) sched_n = id + 1;
-  sem_init(&t->sem, 0, 0);
-  t->fn = fn; t->kind = 0; t->addr = NULL; t->val = 0; t->cmd = 0; t->live = 1;
-  if (pthread_create(&t->th, NULL, sched_tramp, (void*) (long) id)) { perror("pthread_create"); exit(3); }
+  t->fn = fn; t->kind = 0; t->addr = NULL; t->val = 0; t->cmd = 0;
+  if (!t->live) {
+    pthread_attr_t at;
+    sem_init(&t->sem, 0, 0);
+    pthread_attr_init(&at);
+    pthread_attr_setstacksize(&at, 256 * 1024);
+    if (pthread_create(&t->th, &at, sched_tramp, (void*) (long) id)) { perror("pthread_create"); exit(3); }
+    pthread_attr_destroy(&at);
+    pthread_detach(t->th);
+    t->live = 1;
+  }
   sem_post(&t->sem);
   sem_wait(&sched_ctl);
 }
@@ -83,17 +93,12 @@ static void sched_step(int id, int cmd) {
 
 static int sched_done(int id) { return sched_t[id].kind == SCHED_K_DONE; }
 
-/* controller: end of a run — every thread runs to completion (one at a time) and is joined */
+/* controller: end of a run — every thread runs to the end of its function (one at a time) */
 static void sched_unwind_all(void) {
   int i;
   sched_unwinding = 1;
-  for (i = 0; i < sched_n; i++) {
-    if (!sched_t[i].live) continue;
-    if (sched_t[i].kind != SCHED_K_DONE) { sem_post(&sched_t[i].sem); sem_wait(&sched_ctl); }
-    pthread_join(sched_t[i].th, NULL);
-    sem_destroy(&sched_t[i].sem);
-    sched_t[i].live = 0;
-  }
+  for (i = 0; i < sched_n; i++)
+    if (sched_t[i].live && sched_t[i].kind != SCHED_K_DONE) { sem_post(&sched_t[i].sem); sem_wait(&sched_ctl); }
   sched_n = 0;
   sched_unwinding = 0;
 }
